@@ -68,7 +68,7 @@ def expected_div(meth, mode, x, p, y, q, n, lty, rty):
     """concrete oracle: list of acceptable outcomes"""
     checked = meth == "checked_div"
     fail = ("NONE",) if checked else ("PANIC",)
-    if meth == "div_rounded" and n > 18 and not (lty != "Decimal" and rty != "Decimal"):
+    if meth == "div_rounded" and n > 18:
         return [("PANIC",)]
     if y == 0:
         return [fail]
